@@ -151,12 +151,21 @@ def embed_cases(tier):
         for ext in (False, True):
             cases.append((combo, ext, 'second-inside-first'))
     cases.append((('FED-DEFAULTCUR',), True, 'external-inside-first'))
+    # country and currency codes that contain one another (S / US / USA, D / AD / CAD): distinct codes are distinct zones
+    for combo in (('A-sim', 'B-pc'), ('C-simex-caps', 'A-sim', 'D-multi-mm'), ('A-sim', 'A-sim')):
+        for ext in (False, True):
+            cases.append((combo, ext, 'one-after-the-other', 'nested-codes'))
     return cases
 
 
-def make_eco(i, vname):
+NESTED_CODES = [('S', 'D'), ('US', 'AD'), ('USA', 'CAD')]      # every earlier country / currency code is contained in the later ones
+
+
+def make_eco(i, vname, scheme='plain'):
     cc = 'E%d' % i
     cur = 'CUR%d' % i
+    if scheme == 'nested-codes':
+        cc, cur = NESTED_CODES[i]
     if vname == 'FED':
         return eco_plan(cc, cur, None, fed=True)
     if vname == 'FED-REGIONPLACED':
@@ -172,8 +181,10 @@ def make_eco(i, vname):
 def work_embed(case):
     combo, ext = case[:2]
     layout = case[2] if len(case) > 2 else 'one-after-the-other'
-    rec = {'plan': '+'.join(combo) + ('+EXT' if ext else '') + ('' if layout == 'one-after-the-other' else ':' + layout), 'case': 'embed', 'obs': [], 'solver_s': 0.0, 'queries': 0}
-    plans = [make_eco(i, v) for i, v in enumerate(combo)]
+    scheme = case[3] if len(case) > 3 else 'plain'
+    rec = {'plan': '+'.join(combo) + ('+EXT' if ext else '') + ('' if layout == 'one-after-the-other' else ':' + layout) + ('' if scheme == 'plain' else ':' + scheme),
+           'case': 'embed', 'obs': [], 'solver_s': 0.0, 'queries': 0}
+    plans = [make_eco(i, v, scheme) for i, v in enumerate(combo)]
     jplans = list(plans)
     order = None
     if layout != 'one-after-the-other':
